@@ -41,6 +41,8 @@ func checkC02(c *Ctx, r *Report) {
 	c02PrintFormatted(c, r, "C02.R5.print-formatted")
 	c02PrintBounds(c, r, "C02.R5.print-bounds")
 	headerWritten(c, r, "C02.R5.header-written", "PackRR of a record without RDATA (accepted from the wire with RDLENGTH 0) at the end of a buffer reports success, overwrites the last two octets of the previous record, and panics with a slice bound of -2 on a buffer shorter than two octets")
+	r.rule("C02.R5.repack-bounds", 80, "every index / slice on the buffer and on text in the packers (Msg.PackBuffer, PackRR and what they reach) is entailed in bounds; the name packer's compaction arithmetic and the constructs listed in the notes are not decided")
+	boundsRuleFor(c, r, "C02.R5.repack-bounds", []string{"Msg.PackBuffer", "PackRR"}, true, repackSkip, "re-packing a record the decoder accepted, into a caller's buffer of any size, can panic instead of returning an error", nil, repackExempt)
 }
 
 func c02R1(c *Ctx, r *Report) {
